@@ -449,6 +449,7 @@ one message/batch header (what the driver's oracle runs) -/
 def headerBody : Body where
   first := fun s =>
     if s.sz < 17 then (.error .shortRead, s)
+    else if s.inp.getD 16 0 > 2 then (.error (.other "unsupported message version"), s)   -- header.badMagic()
     else if s.sz < headerNeed (s.inp.getD 16 0) then (.error .shortRead, s)
     else (.ok (), s)
   rest := idealBody.rest
